@@ -1,5 +1,6 @@
 """C11 — Bech32 segwit addresses: BIP173 codec and guaranteed corruption detection."""
 import itertools
+import random
 
 from ..framework import Prop, mk, guarded, ensure_repo_on_path
 
@@ -8,6 +9,25 @@ CHAIN_HRPS = ('bc', 'tb', 'bcrt')
 CHARSET = 'qpzry9x8gf2tvdw0s3jn54khce6mua7l'        # BIP173 (the harness' own copy: used to *build* corruptions)
 NON_CHARSET = 'b1iO'                                  # '1', 'b', 'i', 'o' are excluded from the data alphabet
 SUBST = CHARSET + NON_CHARSET
+
+# Non-ASCII (and control) code points chosen for what Python's str methods do with them.  A full scan of
+# U+0080..U+10FFFF shows exactly these 18 code points whose .lower()/.upper()/.casefold() yields ASCII letters
+# of the bech32 alphabet (+ 'b', 'i', 'o', '1'), possibly several of them or with a combining mark:
+CASEMAP_SPECIALS = [0xdf, 0x130, 0x131, 0x17f, 0x1f0, 0x1e96, 0x1e97, 0x1e98, 0x1e99, 0x1e9e, 0x212a,
+                    0xfb00, 0xfb01, 0xfb02, 0xfb03, 0xfb04, 0xfb05, 0xfb06]
+#   (U+212A KELVIN .lower() == 'k' and is its own upper case; U+017F LONG S .upper() == 'S';
+#    U+0130 .lower() is TWO code points 'i' + U+0307; U+0131 .upper() == 'I'; ß/ẞ/ligatures map to 2-3 letters)
+# compatibility look-alikes (NFKC / isdigit / int() accept them), controls, boundaries of the 33..126 rule,
+# astral code points and lone surrogates (a Python str can hold them):
+OTHER_SPECIALS = [0x00, 0x09, 0x1f, 0x20, 0x7f, 0x80, 0xa0, 0xaa, 0xb9, 0xff, 0x100, 0x3ba, 0x43a, 0x661, 0x2160,
+                  0x2170, 0x24a6, 0xff11, 0xff2b, 0xff4b, 0xff51, 0xffff, 0x10000, 0x1d48c, 0x1d7cf, 0x1f600,
+                  0x10ffff, 0xd800, 0xdbff, 0xdc00, 0xdfff]
+SPECIALS = CASEMAP_SPECIALS + OTHER_SPECIALS
+
+
+def fullwidth(ch):
+    """the FULLWIDTH form of a printable ASCII character (NFKC maps it back)"""
+    return chr(0xff00 + ord(ch) - 0x20) if 0x21 <= ord(ch) <= 0x7e else ch
 
 # BIP173 test vectors (from the BIP text, not the repository's copies)
 BIP173_VALID_BECH32 = [
@@ -102,7 +122,10 @@ class C11(Prop):
             'claim nothing more for length changes than decode = BIP173 predicate); '
             'CBech32Data(str)/str() under each chain; building blocks (polymod, checksum, convertbits incl. padding '
             'rules) on boundary and mined values; non-trivial = an input other than the empty string; distinct by '
-            'canonical request line')
+            'canonical request line; non-ASCII: the 18 code points whose lower/upper/casefold lands in the alphabet '
+            '(KELVIN, LONG S, dotted/dotless I, sharp s, ligatures ...), fullwidth/compatibility twins, controls, astral '
+            'code points and lone surrogates, at every position of lower/upper/mixed renderings, in HRP arguments and '
+            'through CBech32Data')
 
     def setup(self):
         ensure_repo_on_path()
@@ -139,7 +162,7 @@ class C11(Prop):
                 a = self._enc(h, v, p)
                 if a is not None:
                     out.append((h, a))
-        for h in ('1', '?', 'a1b', '111', '0', 'x' * 30):
+        for h in ('1', '?', 'a1b', '111', '0', 'x' * 30, 'kis', 'fthwyjl'):
             a = self._enc(h, 0, bytes(range(7, 27)))
             if a is not None:
                 out.append((h, a))
@@ -163,7 +186,11 @@ class C11(Prop):
     def _subst(rng, a, positions, alphabet=None):
         b = list(a)
         for i in positions:
-            al = alphabet or (SUBST if rng.randrange(8) == 0 else CHARSET)
+            k = rng.randrange(16)
+            if alphabet is None and k == 0:
+                b[i] = chr(rng.choice(SPECIALS))           # non-ASCII / control / surrogate
+                continue
+            al = alphabet or (SUBST if k < 3 else CHARSET)
             b[i] = rng.choice([c for c in al if c != a[i]])
         return ''.join(b)
 
@@ -218,6 +245,9 @@ class C11(Prop):
 
         pool = [p for p in self.pool if 0 <= p <= 130]
         fixed = self._fixed_addresses()
+        # Everything that feeds an enumeration partitioned with mine() is deterministic or drawn from `crng`,
+        # which is the same in every shard; the per-shard `rng` only fills in payloads / independent samples.
+        crng = random.Random('%s:%s:%s:common' % (getattr(self, 'seed', 0), self.id, tier))
 
         # (0) BIP173 vectors
         for s in BIP173_VALID_BECH32 + BIP173_INVALID_BECH32 + [a for _, a in BIP173_VALID_ADDR] + BIP173_INVALID_ADDR:
@@ -305,7 +335,7 @@ class C11(Prop):
             elif kind == 3:
                 s = ''.join(rng.choice(CHARSET.upper() + '1b') for _ in range(ln))
             else:
-                s = ''.join(chr(rng.choice([32, 33, 126, 127, 49, 65, 90, 97, 122] + [p for p in pool if p > 0]))
+                s = ''.join(chr(rng.choice([32, 33, 126, 127, 49, 65, 90, 97, 122] + SPECIALS + [p for p in pool if p > 0]))
                             for _ in range(ln))
             yield mk('c11.b32dec', cps(s), tag='garbage')
             yield mk('c11.decode', cps(rng.choice(['bc', s[:2], ''])), cps(s), tag='garbage')
@@ -318,12 +348,65 @@ class C11(Prop):
                 for ch in SUBST + ' ':
                     if ch != a[i]:
                         yield mk('c11.decode', cps(h), cps(a[:i] + ch + a[i + 1:]), tag='sub1-all')
+        # (3d) non-ASCII / control code points in every position class (prefix, separator, data, checksum) of the
+        #      lower-, upper- and mixed-case renderings of every fixed address: substitution and insertion;
+        #      plus the FULLWIDTH twin of the character at that position.  Partitioned by (address, form, position).
+        specials = list(SPECIALS)
+        nfkc_extra = []
+        if big:                     # every code point whose NFKC form is a letter/digit of the alphabet (~1000)
+            import unicodedata
+            nfkc_extra = [cp for cp in range(128, 0x110000) if not 0xd800 <= cp <= 0xdfff
+                          and len(unicodedata.normalize('NFKC', chr(cp))) == 1
+                          and unicodedata.normalize('NFKC', chr(cp)).lower() in CHARSET + '1bio']
+        spec_addrs = fixed if big else [x for k, x in enumerate(fixed) if k in (0, 1, 3) or x[0] in ('bcrt', 'kis', 'fthwyjl', '1')]
+        for ai, (h, a) in enumerate(spec_addrs):
+            lo, up = a.lower(), a.upper()
+            mixed = ''.join(c.upper() if k % 2 else c for k, c in enumerate(lo))
+            for form in (lo, up, mixed):
+                for i in range(len(form) + 1):
+                    if not mine():
+                        continue
+                    for cp in specials + (nfkc_extra if ai < 3 else []):
+                        z = chr(cp)
+                        if i < len(form):
+                            yield mk('c11.decode', cps(h), cps(form[:i] + z + form[i + 1:]), tag='special-sub')
+                        if cp in CASEMAP_SPECIALS or cp in (0, 0x20, 0xd800, 0x10000):
+                            yield mk('c11.decode', cps(h), cps(form[:i] + z + form[i:]), tag='special-ins')
+                    if i < len(form):
+                        yield mk('c11.decode', cps(h), cps(form[:i] + fullwidth(form[i]) + form[i + 1:]),
+                                 tag='special-fullwidth')
+                        yield mk('c11.b32dec', cps(form[:i] + chr(0x212a) + form[i + 1:]), tag='special-b32dec')
+                        yield mk('c11.b32dec', cps(form[:i] + chr(0x17f) + form[i + 1:]), tag='special-b32dec')
+        # the same through CBech32Data under each chain, and in the HRP argument of decode / encode
+        for ci, ch in enumerate(CHAINS):
+            h = ('bc', 'tb', 'tb', 'bcrt')[ci]
+            a = self._enc(h, 0, bytes(range(40, 60)))
+            for form in (a, a.upper()):
+                for i in range(len(form)):
+                    if not mine():
+                        continue
+                    for cp in CASEMAP_SPECIALS + [0, 0x80, 0xff11, 0x10000, 0xdc00]:
+                        yield mk('c11.new', ch, cps(form[:i] + chr(cp) + form[i + 1:]), tag='special-new')
+        for (h, a) in spec_addrs:
+            for i in range(len(h)):
+                if not mine():
+                    continue
+                for cp in specials:
+                    h2 = h[:i] + chr(cp) + h[i + 1:]
+                    a2 = a.lower()
+                    a2 = a2[:i] + chr(cp) + a2[i + 1:]
+                    for (hh, aa) in ((h2, a), (h2, a2), (h2.upper(), a2.upper()), (h, a2)):
+                        yield mk('c11.decode', cps(hh), cps(aa), tag='special-hrp')
+                    yield mk('c11.encode', cps(h2), 0, bytes(range(20)).hex(), tag='special-hrp-encode')
+                yield mk('c11.encode', cps(h[:i] + fullwidth(h[i]) + h[i + 1:]), 0, bytes(20).hex(),
+                         tag='special-hrp-encode')
+
         # (3b) shard-random addresses: all singles, sampled doubles/triples/quadruples, case and length classes
         naddr = 2 if big else 1
         picks = [self._random_address(rng) for _ in range(naddr)] + [fixed[(shard + k * nshards) % len(fixed)]
                                                                       for k in range(2 if big else 1)]
         n2 = per_shard(400000 if big else 24000) // len(picks)
-        n34 = per_shard(1500000 if big else 20000) // len(picks)
+        n34 = per_shard(1000000 if big else 20000) // len(picks)
         for (h, a) in picks:
             for i in range(len(a)):
                 for ch in SUBST:
@@ -353,7 +436,7 @@ class C11(Prop):
         # (4) CBech32Data under each chain's HRP
         for ch in CHAINS:
             for ln in range(0, 43):
-                for v in (0, 1, 16, 17, rng.randrange(2, 16)):
+                for v in (0, 1, 16, 17, crng.randrange(2, 16)):
                     if not mine():
                         continue
                     p = rng.randbytes(ln)
